@@ -469,8 +469,17 @@ func makeOptionalPtrDecoder(typ reflect.Type) (decoder, error) {
 	if err != nil {
 		return nil, err
 	}
+	nilKind := emptyValueKind(etype)
 	dec := func(s *Stream, val reflect.Value) (err error) {
 		kind, size, err := s.Kind()
+		if err == nil && size == 0 && kind != Byte && nilKind >= 0 && kind != nilKind {
+			// the empty value of the other kind (0xC0 for a string-like element,
+			// 0x80 for a list-like one) is not an encoding of nil for this type
+			if nilKind == List {
+				return wrapStreamError(ErrExpectedList, typ)
+			}
+			return wrapStreamError(ErrExpectedString, typ)
+		}
 		if err != nil || size == 0 && kind != Byte {
 			// rearm s.Kind. This is important because the input
 			// position must advance to the next value even though
@@ -490,6 +499,24 @@ func makeOptionalPtrDecoder(typ reflect.Type) (decoder, error) {
 		return err
 	}
 	return dec, nil
+}
+
+// emptyValueKind returns the kind (String or List) whose empty value encodes a
+// nil pointer to typ, or -1 if that cannot be told from the type (custom
+// decoders, interfaces, nested pointers).
+func emptyValueKind(typ reflect.Type) Kind {
+	k := typ.Kind()
+	switch {
+	case typ.Implements(decoderInterface) || (k != reflect.Ptr && reflect.PtrTo(typ).Implements(decoderInterface)):
+		return -1
+	case typ.AssignableTo(bigInt) || isUint(k) || k == reflect.Bool || k == reflect.String:
+		return String
+	case (k == reflect.Slice || k == reflect.Array) && isByte(typ.Elem()):
+		return String
+	case k == reflect.Slice || k == reflect.Array || k == reflect.Struct:
+		return List
+	}
+	return -1
 }
 
 var ifsliceType = reflect.TypeOf([]interface{}{})
